@@ -36,6 +36,7 @@ def main():
         copies = int(args[args.index("--copies") + 1])
         del args[args.index("--copies"):args.index("--copies") + 2]
     benign = "--benign" in args
+    verify = " --verify" if "--verify" in args else ""
     names = [a for a in args if not a.startswith("--")]
     items = []
     if names or not benign:
@@ -58,7 +59,7 @@ def main():
                 except StopIteration:
                     return
             if kind == "seed":
-                p = sh("python3 tools/seedtest.py seeded/%s --wt --record" % name, cwd=cp)
+                p = sh("python3 tools/seedtest.py seeded/%s --wt --record%s" % (name, verify), cwd=cp)
                 ok = p.returncode == 0
                 vio = [l for l in p.stdout.splitlines() if l.startswith("VIOLATION")]
                 src = os.path.join(cp, "seeded", name)
